@@ -114,6 +114,7 @@ def run_fragment(ctx, mode, n_exprs, max_depth):
     rng = ctx.rng
     gen = Q.ExtGen(rng) if mode == 'ext' else Q.Gen(rng, mode)
     exprs = [gen.expr(rng.choice([1, 2, 2, 3, 3, max_depth])) for i in range(n_exprs)]
+    if mode == 'frag': exprs = [x for x in Q.flag_probes() if Q.has_attr(x) and not Q.closed_compound(x)] + exprs     # deterministic probes of every constructor's nullable flag
     sch = Q.schema_json()
     db, E = fresh_db()
     rows = [Q.random_row(rng) for _ in range(ctx.scale(14, 40))]
@@ -1391,8 +1392,8 @@ def run(ctx):
         ('distinct', lambda: run_distinct(ctx, ctx.scale(3, 30))),
         ('schema2', lambda: run_schema2(ctx, ctx.scale(5, 60))),
         ('projections', lambda: run_projections(ctx, ctx.scale(60, 800))),
-        ('fragment', lambda: run_fragment(ctx, 'frag', ctx.scale(240, 2400), 4)),
-        ('extended', lambda: run_fragment(ctx, 'ext', ctx.scale(150, 1500), 4)),
+        ('fragment', lambda: run_fragment(ctx, 'frag', ctx.scale(240, 2000), 4)),
+        ('extended', lambda: run_fragment(ctx, 'ext', ctx.scale(150, 1200), 4)),
     ]
     cpu = {}
     for name, f in steps:
